@@ -117,6 +117,38 @@ func (s *ccSys) Do(o tt.Op) tt.Res {
 			}
 		}
 		return tt.Res{Ok: err == nil, V: att, S: []int{inv, 0, minGap}}
+	case "retrydelayc":
+		// the callback itself takes time: c1 units the first attempt, c every later one (virtual clock only);
+		// the wait between the END of a failed attempt and the START of the next one is what is measured
+		n, fails := retryArgs(append([]int{o.A[0]}, o.A[4:]...))
+		d := time.Duration(o.A[1]) * ccUnit
+		inv := 0
+		var starts, ends []time.Time
+		ccEnable()
+		_, att, err := gogu.RType[int]{Input: 7}.RetryWithDelay(n, d, func(_ time.Duration, in int) error {
+			starts = append(starts, ccNow())
+			inv++
+			if inv > 1000 {
+				panic("callback invoked more than 1000 times")
+			}
+			if inv == 1 {
+				ccTick(o.A[2])
+			} else {
+				ccTick(o.A[3])
+			}
+			ends = append(ends, ccNow())
+			if fails(inv) {
+				return codeErr(inv)
+			}
+			return nil
+		})
+		minGap := 1 << 30
+		for i := 1; i < len(starts); i++ {
+			if g := int(starts[i].Sub(ends[i-1]) / ccUnit); g < minGap {
+				minGap = g
+			}
+		}
+		return tt.Res{Ok: err == nil, V: att, S: []int{inv, 0, minGap}}
 	}
 	panic("callcount driver: unknown op " + o.N)
 }
@@ -198,6 +230,18 @@ func init() {
 				for _, d := range delays {
 					for _, p := range [][]int{{}, {1, 1, 0}, {1, 0}, {0}, {1, 1, 1, 1, 1}} {
 						chain(op("retrydelay", append([]int{n, d}, p...)...))
+					}
+				}
+			}
+			if ccVirtual {
+				// attempts that take time themselves: shorter than, equal to and several times the delay
+				for n := 1; n <= 4; n++ {
+					for _, d := range []int{0, 900, 1500} {
+						for _, c := range [][2]int{{100, 100}, {900, 0}, {4000, 0}, {0, 2000}, {1500, 1500}, {5000, 100}} {
+							for _, p := range [][]int{{}, {1, 1, 0}, {1, 0}, {1, 1, 1, 1, 1}} {
+								chain(op("retrydelayc", append([]int{n, d, c[0], c[1]}, p...)...))
+							}
+						}
 					}
 				}
 			}
